@@ -1,4 +1,30 @@
+//! Entity-level model-based monitors through the public async API inside the simulation:
+//! `scen_ent <c28|c35|c36|c37> --seed S --shard i --nshards n --cases N --tier T --out F [--replay FILE]`
 #[path = "../../scen/src/common.rs"]
 mod common;
+mod c28;
+mod c35;
+mod c36;
+mod c37;
+mod util;
 
-fn main() {}
+use common::Shard;
+use vcore::Args;
+
+fn main() {
+    let args = Args::parse();
+    let scenario = args.pos.first().cloned().unwrap_or_default();
+    let shard = Shard::from_args(args);
+    simnet::install_panic_hook();
+    let rep = match scenario.as_str() {
+        "c28" => c28::run(&shard),
+        "c35" => c35::run(&shard),
+        "c36" => c36::run(&shard),
+        "c37" => c37::run(&shard),
+        other => {
+            eprintln!("unknown scenario {other}");
+            std::process::exit(3);
+        }
+    };
+    rep.write(&shard.out);
+}
